@@ -74,7 +74,7 @@ def parseLine (ext : Ext) (fcbSup : Bool) (segs : List Seg) (bin : Bytes) : Stri
   | .ok (i, f) => s!"P:{i};" ++ ",".intercalate (f.map foundStr)
 
 def mergeLine (d : Desc) (init : Nat) (raws : List (Option Bytes)) : String × Option Bytes :=
-  let slots := (d.segs.zip raws).map (fun p => Slot.mk p.1 p.2)
+  let slots := mkSlots d.segs raws
   let offs := (List.range slots.length).map (fun i => match segOffset init slots i with | .ok o => toString o | .error _ => "x")
   let ln := match imageLen init slots with | .ok n => toString n | .error e => e.tag
   match exportImg d init raws with
